@@ -50,7 +50,7 @@ RecOf(t) ==
     LET steps == IF ch[1] = "call" THEN ACallSteps(t, Cols, ch[2]) ELSE <<>>
         out == IF ch[1] = "direct" THEN AFilterRows(ch[2][1], Cols, t)
                ELSE IF steps = <<>> THEN t ELSE steps[Len(steps)].out
-    IN [op |-> ch[1], f |-> IF ch[1] = "direct" THEN ch[2][1] ELSE "", filters |-> IF ch[1] = "call" THEN ch[2] ELSE <<>>,
+    IN [op |-> IF ch[1] = "direct" THEN ch[2][1] ELSE "call", f |-> IF ch[1] = "direct" THEN ch[2][1] ELSE "", filters |-> IF ch[1] = "call" THEN ch[2] ELSE <<>>,
         method |-> "none", a |-> t, cols |-> Cols, steps |-> steps, out |-> out, err |-> ""]
 
 Init == /\ ch \in OpChoices /\ sh \in Shapes /\ fo \in [1..MaxN -> Opt] /\ ph = "call" /\ tab = <<>>
@@ -62,12 +62,12 @@ Spec == Init /\ [][Next]_vars
 
 (* the algorithm as modelled satisfies every clause, outside the inputs of the listed findings *)
 DesignOK == ph = "ret" => LET r == RecOf(tab) IN
-                            \/ \A c \in Clauses(ch[1]) : Holds(c, r)
+                            \/ \A c \in Clauses(r.op) : Holds(c, r)
                             \/ \E t \in KnownTriggers : TriggerHolds(t, r)
 (* ... and with them (violated as long as a listed finding is open: the design counterexample) *)
-DesignStrict == ph = "ret" => LET r == RecOf(tab) IN \A c \in Clauses(ch[1]) : Holds(c, r)
+DesignStrict == ph = "ret" => LET r == RecOf(tab) IN \A c \in Clauses(r.op) : Holds(c, r)
 (* the enumerated scope lies inside the premise *)
 DesignPremise == ph = "ret" =>
-    Premise([op |-> ch[1], f |-> IF ch[1] = "direct" THEN ch[2][1] ELSE "", filters |-> IF ch[1] = "call" THEN ch[2] ELSE <<>>,
+    Premise([op |-> IF ch[1] = "direct" THEN ch[2][1] ELSE "call", f |-> IF ch[1] = "direct" THEN ch[2][1] ELSE "", filters |-> IF ch[1] = "call" THEN ch[2] ELSE <<>>,
              method |-> "none", a |-> tab, cols |-> Cols])
 =============================================================================
